@@ -112,24 +112,35 @@ end Prepare
 `PConn`: executions on real connections. Callers (`Session.Query(..).Exec`, `ExecuteBatch`) run
 `Conn.executeQuery` / `executeBatch`: for every prepared entry `prepareStatement` (lookup-or-insert, then
 wait for the flight), value-count check, one EXECUTE / BATCH frame, and on UNPREPARED `evictPreparedID`
-followed by a restart. The flight's goroutine sends the PREPARE; the server answers it; the goroutine
-completes the flight (on failure: remove the KEY, then close `done`).
+followed by a restart. The caller that published a flight starts the flight's goroutine (`spawn`), which
+sends the PREPARE on the CONNECTION's context; the server answers it; the goroutine completes the flight
+(on failure: remove the KEY, then close `done`).
+
+Caller contexts: `cancel c` is the moment from which call c's context is done (cancelled, or a deadline
+armed). A caller whose context is done may, wherever the code selects on `ctx.Done()`, return its context
+error instead of going on: while it waits for a flight (`prepareStatement`'s select; `Conn.exec`'s entry
+check / the write queue — nothing was sent) and while it waits for the answer to its frame (`Conn.exec`'s
+select). There is NO such return between publishing a flight and starting its goroutine (pc `won`): the
+entry a cancelled winner leaves behind is completed by the goroutine it started. A frame that was written
+just before the context fired reaches the server after the caller has returned (`abandonLate` / `srvLate`).
 
 The cache is a finite map here and capacity eviction is the environment action `evict` (any cached key,
 any time): every LRU eviction is such an action, so what is proved for all schedules of this machine holds
 for every cache size and every LRU order. (`Model/LRU.lean` + the sequential tier cover which key the LRU
 picks.)
 
-Hidden driver actions: `lookup`, `complete`, `observe` (the part before the frame), `finish`.
+Hidden driver actions: `lookup`, `spawn`, `complete`, `observe` (the part before the frame), `finish`.
 Observable events (`Ev`): what the harness can log in a total order consistent with the code's own
-synchronisation — the call starts and returns (caller side), the PREPARE / EXECUTE / BATCH frames with the
-answers the scripted server chose (server side), and every removal from the cache (`lru.Cache.OnEvicted`,
-called under the cache mutex).
+synchronisation — the call starts and returns (caller side), the moment a call's context becomes done
+(logged by whoever cancels, before cancelling), the PREPARE / EXECUTE / BATCH frames with the answers the
+scripted server chose (server side), and every removal from the cache (`lru.Cache.OnEvicted`, called under
+the cache mutex).
 
 `Obs`: the observable-level specification — an acceptor over `Ev` only, whose enabledness conditions are
 the clauses of the property (ids belong to the statement and are not superseded, single flight, failures
-reported but not remembered, value count). `Proofs/C14Conn.lean` proves that every schedule of `PConn`
-produces a trace that `Obs` accepts; the harness feeds the traces observed on real Sessions to `Obs`.
+reported but not remembered, value count, a context error only to a call whose own context is done, no
+execution that never returns). `Proofs/C14Conn.lean` proves that every schedule of `PConn` produces a trace
+that `Obs` accepts; the harness feeds the traces observed on real Sessions to `Obs`.
 -/
 namespace PConn
 
@@ -152,6 +163,7 @@ inductive Outcome
   | execErr
   | prepErr (f : Nat)      -- the failure of PREPARE number f
   | countErr               -- "expected n values send got m"
+  | ctxErr                 -- the caller's own context error (context.Canceled / DeadlineExceeded)
   deriving DecidableEq, Repr
 
 inductive Ev (κ : Type)
@@ -162,6 +174,7 @@ inductive Ev (κ : Type)
   | ret (c : Nat) (o : Outcome)                            -- call c returned
   | crash                                                  -- nil dereference in evictPreparedID
   | hang (c : Nat)                                         -- harness only: call c did not return although every frame was answered
+  | cancel (c : Nat)                                       -- call c's context is done from here on
   deriving DecidableEq
 
 structure Flight (κ : Type) where
@@ -169,12 +182,16 @@ structure Flight (κ : Type) where
   ans     : Option PAns    -- none: the PREPARE has not reached the server yet
   done    : Bool           -- close(flight.done) happened
   removed : Bool           -- (ghost) the entry has left the cache
+  spawned : Bool           -- the `go func() { ... }()` of the publishing caller has been executed
 
 inductive PC
   | start                  -- about to call prepareStatement for entry number `got.length`
-  | waiting (f : Nat)      -- inside prepareStatement, selecting on flight f's done channel
+  | won (f : Nat)          -- inside prepareStatement: published flight f, about to start its goroutine
+  | waiting (f : Nat)      -- inside prepareStatement, selecting on flight f's done channel and on ctx.Done()
   | answered (a : XAns)    -- frame sent, the server has chosen its answer
   | returned
+  | abandoned              -- returned its context error
+  | lagging                -- returned its context error; the frame it had just written has not reached the server yet
   deriving DecidableEq
 
 structure Caller (κ : Type) where
@@ -185,22 +202,34 @@ structure Caller (κ : Type) where
   banned  : Nat → Bool     -- (ghost) the flights already removed when the call started / sent its last frame
 
 structure State (κ : Type) where
-  cache   : κ → Option Nat
-  flights : List (Flight κ)
-  callers : List (Caller κ)
+  cache     : κ → Option Nat
+  flights   : List (Flight κ)
+  callers   : List (Caller κ)
+  cancelled : Nat → Bool   -- the call's context is done
+  strict    : Bool         -- the cache is large enough never to purge an entry for capacity (`evict` disabled)
 
 inductive Action (κ : Type)
   | call (batch : Bool) (es : List (κ × Nat))
   | lookup (c : Nat)
+  | spawn (c : Nat)                  -- `go func() { defer close(flight.done); ... }()` by the caller that published
   | evict (k : κ)
   | srvPrepare (f : Nat) (r : PAns)
   | complete (f : Nat)
   | observe (c : Nat) (a : XAns)     -- `a`: the server's answer if this step sends the frame
   | finish (c : Nat)
+  | cancel (c : Nat)                 -- the context of call c becomes done
+  | abandon (c : Nat)                -- `case <-ctx.Done(): return ctx.Err()` (prepareStatement / Conn.exec)
+  | abandonLate (c : Nat)            -- the same in Conn.exec right after the frame was written
+  | srvLate (c : Nat) (a : XAns)     -- the server receives the frame of a caller that has already returned
 
 variable {κ : Type} [DecidableEq κ]
 
-def init : State κ := { cache := fun _ => none, flights := [], callers := [] }
+/-- `strict`: the cache never purges for capacity (MaxPreparedStmts 0 = unbounded, or at least as large as the
+    number of distinct host+keyspace+statement keys) -/
+def initB (strict : Bool) : State κ :=
+  { cache := fun _ => none, flights := [], callers := [], cancelled := fun _ => false, strict := strict }
+
+def init : State κ := initB false
 
 def isRemoved (s : State κ) (f : Nat) : Bool :=
   match s.flights[f]? with
@@ -271,11 +300,25 @@ def step (s : State κ) : Action κ → Option (State κ × List (Ev κ))
           | some f => some ({ s with callers := s.callers.set c { cl with pc := .waiting f } }, [])
           | none =>
             let f := s.flights.length
-            some ({ cache := fun k' => if k' = e.1 then some f else s.cache k',
-                    flights := s.flights ++ [{ key := e.1, ans := none, done := false, removed := false }],
-                    callers := s.callers.set c { cl with pc := .waiting f } }, [])
+            some ({ s with cache := fun k' => if k' = e.1 then some f else s.cache k',
+                           flights := s.flights ++ [{ key := e.1, ans := none, done := false, removed := false,
+                                                      spawned := false }],
+                           callers := s.callers.set c { cl with pc := .won f } }, [])
       else none
+  | .spawn c =>
+    match s.callers[c]? with
+    | none => none
+    | some cl =>
+      match cl.pc with
+      | .won f =>
+        match s.flights[f]? with
+        | none => none
+        | some fl =>
+          some ({ s with flights := s.flights.set f { fl with spawned := true },
+                         callers := s.callers.set c { cl with pc := .waiting f } }, [])
+      | _ => none
   | .evict k =>
+    if s.strict = true then none else
     match s.cache k with
     | none => none
     | some _ => some (removeKey s k)
@@ -283,7 +326,7 @@ def step (s : State κ) : Action κ → Option (State κ × List (Ev κ))
     match s.flights[f]? with
     | none => none
     | some fl =>
-      if fl.ans = none then
+      if fl.ans = none ∧ fl.spawned = true then
         some ({ s with flights := s.flights.set f { fl with ans := some r } }, [.prep f fl.key r])
       else none
   | .complete f =>
@@ -341,6 +384,51 @@ def step (s : State κ) : Action κ → Option (State κ × List (Ev κ))
           | none => (s, [])
         some ({ r.1 with callers := r.1.callers.set c { cl with got := [], pc := .start } }, r.2)
       | _ => none
+  | .cancel c =>
+    if c < s.callers.length then
+      some ({ s with cancelled := fun c' => decide (c' = c) || s.cancelled c' }, [.cancel c])
+    else none
+  | .abandon c =>
+    match s.callers[c]? with
+    | none => none
+    | some cl =>
+      if s.cancelled c = true then
+        match cl.pc with
+        | .waiting _ =>
+          some ({ s with callers := s.callers.set c { cl with pc := .abandoned } }, [.ret c .ctxErr])
+        | .answered _ =>
+          some ({ s with callers := s.callers.set c { cl with pc := .abandoned } }, [.ret c .ctxErr])
+        | _ => none
+      else none
+  | .abandonLate c =>
+    match s.callers[c]? with
+    | none => none
+    | some cl =>
+      if s.cancelled c = true then
+        match cl.pc with
+        | .waiting f =>
+          match s.flights[f]?, cl.entries[cl.got.length]? with
+          | some fl, some e =>
+            if fl.done then
+              match fl.ans with
+              | some (some (_, nc)) =>
+                if e.2 = nc ∧ (cl.got ++ [f]).length = cl.entries.length then
+                  some ({ s with callers := s.callers.set c { cl with got := cl.got ++ [f], pc := .lagging } },
+                        [.ret c .ctxErr])
+                else none
+              | _ => none
+            else none
+          | _, _ => none
+        | _ => none
+      else none
+  | .srvLate c a =>
+    match s.callers[c]? with
+    | none => none
+    | some cl =>
+      if cl.pc = .lagging then
+        some ({ s with callers := s.callers.set c { cl with pc := .abandoned, banned := isRemoved s } },
+              [.exec c (cl.got.map (idOf s)) a])
+      else none
 
 /-- run a schedule, collecting the observable trace -/
 def run (s : State κ) : List (Action κ) → Option (State κ × List (Ev κ))
@@ -368,12 +456,24 @@ inductive OPC
   | active
   | awaiting (a : XAns)
   | returned
+  | abandoned (lag : Bool)  -- returned its context error; lag: a frame written just before may still arrive
   deriving DecidableEq
 
 /-- may send a frame / return a prepare-side error: running, or restarted by an UNPREPARED answer -/
 def OPC.live : OPC → Bool
   | .active => true
   | .awaiting (.unprep _) => true
+  | _ => false
+
+/-- has not returned -/
+def OPC.running : OPC → Bool
+  | .active => true
+  | .awaiting _ => true
+  | _ => false
+
+/-- returned its context error (a PREPARE it caused may still be on its way) -/
+def OPC.gaveUp : OPC → Bool
+  | .abandoned _ => true
   | _ => false
 
 structure OCaller (κ : Type) where
@@ -387,10 +487,18 @@ structure OState (κ : Type) where
   callers : List (OCaller κ)
   /-- `1 + #rm(k) − #prep(k)`: how many more PREPAREs of k the removals seen so far allow -/
   credit  : κ → Nat
+  /-- the call's context is done -/
+  cancelled : Nat → Bool
+  /-- the cache never purges for capacity: every removal must be justified (`justified`) -/
+  strict : Bool
 
 variable {κ : Type} [DecidableEq κ]
 
-def init : OState κ := { flights := fun _ => none, known := [], callers := [], credit := fun _ => 1 }
+def initB (strict : Bool) : OState κ :=
+  { flights := fun _ => none, known := [], callers := [], credit := fun _ => 1, cancelled := fun _ => false,
+    strict := strict }
+
+def init : OState κ := initB false
 
 def removedNow (o : OState κ) (f : Nat) : Bool :=
   match o.flights f with
@@ -421,6 +529,17 @@ def countMismatch (o : OState κ) (cl : OCaller κ) : Bool :=
 
 def hasKey (es : List (κ × Nat)) (k : κ) : Bool := es.any (fun e => decide (e.1 = k))
 
+/-- why flight f's entry (key k) may leave a cache that never purges for capacity: its PREPARE failed, or a running
+    call that executes k holds an UNPREPARED answer carrying the id that PREPARE returned -/
+def justified (o : OState κ) (k : κ) (f : Nat) : Bool :=
+  match o.flights f with
+  | some fl =>
+    match fl.ans with
+    | some none => true
+    | some (some (id, _)) => o.callers.any fun cl => decide (cl.pc = .awaiting (.unprep id)) && hasKey cl.entries k
+    | none => false
+  | none => false
+
 def setPc (o : OState κ) (c : Nat) (cl : OCaller κ) (pc : OPC) : OState κ :=
   { o with callers := o.callers.set c { cl with pc := pc } }
 
@@ -431,7 +550,8 @@ def step (o : OState κ) : Ev κ → Option (OState κ)
     else none
   | .prep f k r =>
     -- single flight: at most one more PREPARE of k than entries of k that left the cache; somebody is executing k
-    if 0 < o.credit k ∧ o.callers.any (fun cl => cl.pc.live && hasKey cl.entries k) then
+    -- (or gave up on its context after causing the PREPARE)
+    if 0 < o.credit k ∧ o.callers.any (fun cl => (cl.pc.live || cl.pc.gaveUp) && hasKey cl.entries k) then
       match o.flights f with
       | none =>
         some { o with flights := fun g => if g = f then some { key := k, ans := some r, removed := false } else o.flights g,
@@ -444,6 +564,8 @@ def step (o : OState κ) : Ev κ → Option (OState κ)
         else none
     else none
   | .rm k f =>
+    -- with a cache that cannot purge for capacity an entry leaves only because its PREPARE failed or was lost
+    if o.strict = true ∧ justified o k f = false then none else
     match o.flights f with
     | none =>
       some { o with flights := fun g => if g = f then some { key := k, ans := none, removed := true } else o.flights g,
@@ -460,6 +582,9 @@ def step (o : OState κ) : Ev κ → Option (OState κ)
     | some cl =>
       if cl.pc.live ∧ okEntries o cl.banned cl.entries ids then
         some { o with callers := o.callers.set c { cl with pc := .awaiting a, banned := removedNow o } }
+      else if cl.pc = .abandoned true ∧ okEntries o cl.banned cl.entries ids then
+        -- the one frame that was already written when the caller's context fired
+        some { o with callers := o.callers.set c { cl with pc := .abandoned false, banned := removedNow o } }
       else none
   | .ret c out =>
     match o.callers[c]? with
@@ -477,8 +602,15 @@ def step (o : OState κ) : Ev κ → Option (OState κ)
           | none => none
         else none
       | .countErr => if cl.pc.live ∧ countMismatch o cl then some (setPc o c cl .returned) else none
+      | .ctxErr =>
+        -- a context error only to a call whose own context is done, and only while it runs
+        if o.cancelled c = true ∧ cl.pc.running = true then some (setPc o c cl (.abandoned cl.pc.live)) else none
   | .crash => none
   | .hang _ => none
+  | .cancel c =>
+    if c < o.callers.length then
+      some { o with cancelled := fun c' => decide (c' = c) || o.cancelled c' }
+    else none
 
 def run (o : OState κ) : List (Ev κ) → Option (OState κ)
   | [] => some o
